@@ -6,7 +6,7 @@
 (* messages the service must send and the store it must hold.               *)
 EXTENDS Sync, Json, SequencesExt
 
-CONSTANTS H, F, ForkAt, CpHs, MaxEnv, Emit, MaxConnects, Scenario
+CONSTANTS H, F, ForkAt, CpHs, MaxEnv, Emit, MaxConnects, MaxRestarts, Scenario
 
 ParV == [b \in 1 .. (H + F) |-> IF b <= H THEN b - 1 ELSE IF b = H + 1 THEN ForkAt ELSE b - 1]
 CpsV == {h \in CpHs : h <= H}        \* checkpoints are honest-chain blocks (block id = height on the honest chain)
@@ -28,6 +28,7 @@ MSyInit == SyInit /\ hist = <<>> /\ nenv = 0
 DeterministicChoice == \A r \in {rows} : Cardinality(Candidates(pk, rows)) <= 1 \/ syncPeer # 0
 
 NConn == Cardinality({k \in 1 .. Len(hist) : hist[k].kind = "env" /\ hist[k].op = "connect"})
+NRst  == Cardinality({k \in 1 .. Len(hist) : hist[k].kind = "env" /\ hist[k].op = "restart"})
 LogEnv(rec) == hist' = Append(hist, rec @@ [kind |-> "env"]) /\ nenv' = nenv + 1
 Pending == {q \in Peers : nd[q].conn /\ nq[q] # <<>>}
 \* phase 2: after the MaxEnv environment events every connected node keeps answering (lowest id first) until nothing is asked
@@ -47,12 +48,13 @@ MEnv ==
      \/ \E p \in Peers, b \in 1 .. NB, how \in {"inv", "headers"} :
           /\ Par[b] = nd[p].best        \* the node's chain grows by one block
           /\ NodeAnnounce(p, b, how) /\ LogEnv([op |-> "announce", p |-> p, b |-> b, how |-> how])
+     \/ (NRst < MaxRestarts /\ RestartSrv /\ LogEnv([op |-> "restart"]))
 MMgr == MgrStep /\ hist' = Append(hist, [kind |-> "mgr"] @@ Obs) /\ UNCHANGED nenv
 
 MSyNext == MMgr \/ MEnv \/ MDrain
 MSySpec == MSyInit /\ [][MSyNext]_msyvars /\ WF_msyvars(MMgr)
 \* everything that guards an action must be in the view, or TLC merges states with different futures
-SyView == <<syvars, nenv, NConn>>
+SyView == <<syvars, nenv, NConn, NRst>>
 
 \* random choice among several candidates: only single-candidate situations are generated for replay
 ChoiceConstraint == Cardinality(Candidates(pk, rows)) <= 1 \/ syncPeer # 0 \/ mq = <<>>
